@@ -118,9 +118,18 @@ def mutate(rng, root):
     """Apply one point mutation somewhere in the tree `root` (in place).  Returns a description or None."""
     nodes = real_nodes(root)
     rng.shuffle(nodes)
-    kinds_pref = rng.choice(["numeric", "numeric", "key", "key", "trailing", "child", "content"])
+    kinds_pref = rng.choice(["numeric", "numeric", "key", "key", "trailing", "child", "content", "tiny"])
     for path, n in nodes:
         k = probes.base_kind(n)
+        if kinds_pref == "tiny":
+            # a relative change of 2e-14: unequal at tolerance 0, equal at tolerance 1e-12
+            attr = rng.choice(NUMERIC[k])
+            v = getattr(n, attr)
+            if isinstance(v, (int, float)) and v == v and not math.isinf(v) and v != 0:
+                setattr(n, attr, float(v) * (1.0 + 2e-14))
+                if getattr(n, attr) != v:
+                    return "tiny (2e-14 relative) %s.%s at %s" % (k, attr, path)
+            continue
         if kinds_pref == "numeric":
             attr = rng.choice(NUMERIC[k])
             if attr == "varianceTimesEntries" and n.entries == 0.0:
@@ -201,6 +210,30 @@ def mutate(rng, root):
     return "numeric %s.entries at $" % k
 
 
+SIBLING = {"Label": "UntypedLabel", "UntypedLabel": "Label", "Index": "Branch", "Branch": "Index", "IrregularlyBin": "Stack", "Stack": "IrregularlyBin"}
+
+
+def _sibling_spec(rng, sp):
+    import copy
+
+    cands = []
+    for path, n in S.walk(sp):
+        k = n["k"]
+        if k not in SIBLING:
+            continue
+        if k == "UntypedLabel" and len({S.describe(v).split("(")[0] for v in n["pairs"].values()}) > 1:
+            continue  # a Label needs members of one type
+        if k == "Branch" and len({S.describe(v).split("(")[0] for v in n["values"]}) > 1:
+            continue
+        cands.append((path, n))
+    if not cands:
+        return None
+    path, n = cands[rng.randrange(len(cands))] if rng is not None else cands[0]
+    m = copy.deepcopy(n)
+    m["k"] = SIBLING[n["k"]]
+    return S.set_at(sp, path, m), "%s -> %s at %s" % (n["k"], m["k"], "/".join(map(str, path)) or "$")
+
+
 def run_case(i, rng, tier):
     from histogrammar.defs import Factory
     import histogrammar.util as util
@@ -263,7 +296,18 @@ def run_case(i, rng, tier):
             other_sp = S.default_child(rng.choice([k for k in S.CHILD_KINDS if not k.startswith(sp["k"])]), rng, {})
             b = S.build(other_sp)
             desc = "other primitive: " + S.describe(other_sp)
-        elif mk < 0.2 and clone_kind != "immutable" and S.has_quantity(sp):
+        elif mk < 0.18 and not built and _sibling_spec(rng, sp) is not None:
+            # the same tree with one node replaced by its sibling type (same keys / children / thresholds): Label <->
+            # UntypedLabel, Index <-> Branch, IrregularlyBin <-> Stack; filled with the same data
+            sp2, what = _sibling_spec(rng, sp)
+            try:
+                b = C.fill_all(S.build(sp2), stream)
+                if clone_kind == "immutable":
+                    b = b.toImmutable()
+                desc = "sibling type " + what
+            except Exception:  # noqa: BLE001
+                desc = mutate(rng, b)
+        elif mk < 0.26 and clone_kind != "immutable" and S.has_quantity(sp):
             r, w = S.gen_stream(rng, sp, 1, {"nonpos_p": 0.0})[0]
             try:
                 b.fill(r, w)
@@ -314,6 +358,28 @@ def run_case(i, rng, tier):
                     failures.append(C.fail(None, "an aggregator does not equal itself", **wit))
             except Exception as e:  # noqa: BLE001
                 failures.append(C.fail(None, "a == a raised %s" % type(e).__name__, **wit))
+        # node by node: != is the negation of == wherever two corresponding nodes are compared directly
+        if not failures:
+            na_, nb_ = dict(real_nodes(a)), dict(real_nodes(b))
+            for tol in (0.0, 1e-12):
+                try:
+                    util.relativeTolerance = util.absoluteTolerance = tol
+                    for pth in list(na_)[:40]:
+                        if pth in nb_:
+                            x_, y_ = na_[pth], nb_[pth]
+                            try:
+                                e_, n_ = bool(x_ == y_), bool(x_ != y_)
+                            except Exception:  # noqa: BLE001
+                                continue
+                            counters["nodewise_negation_checked"] = counters.get("nodewise_negation_checked", 0) + 1
+                            if e_ == n_:
+                                failures.append(C.fail(None, "at %s (tolerance %g) x == y is %s and x != y is %s (mutation: %s)" % (pth, tol, e_, n_, desc), **wit))
+                                break
+                finally:
+                    util.relativeTolerance = 0.0
+                    util.absoluteTolerance = 0.0
+                if failures:
+                    break
         # positive tolerances only widen
         if not failures:
             try:
@@ -340,7 +406,7 @@ def run_case(i, rng, tier):
 
 def conclusive(agg):
     out = []
-    for c in ("clone:copy", "clone:pickle", "clone:immutable", "clone:rebuild", "built:stack", "built:fraction", "equal_pairs", "unequal_pairs", "comparisons:tolerance"):
+    for c in ("clone:copy", "clone:pickle", "clone:immutable", "clone:rebuild", "built:stack", "built:fraction", "equal_pairs", "unequal_pairs", "comparisons:tolerance", "nodewise_negation_checked"):
         if not agg.counters.get(c):
             out.append("never exercised: " + c)
     miss = [k for k in S.ALL_KINDS if k not in agg.sets.get("kinds", ())]
